@@ -187,7 +187,7 @@ def _validate(ck, batches):
                 detail = {"tree": o["a"], "source": e["src"], "unit": e["u"], "reread": e["r"]}
             elif o["k"] == "hist":
                 form = ["Unit(s, registry=r)", "unyt_quantity(1, s, registry=r)", "quantity.to(s)"][r["j"] - 1]
-                key = {"clause": clause, "call": form, "warmup": o["w"], "what": r["what"] if clause == "history" else "", "outcome": r["outcome"], "input": o["s"][1:-1]}
+                key = {"clause": clause, "call": form, "warmup": o["w"], "registry": o["r"], "parsed_before_under": o["q"], "what": r["what"] if clause == "history" else "", "outcome": r["outcome"], "input": o["s"][1:-1]}
                 detail = {"after_parsing": o["warmups"], "cold": o["cold"][r["j"] - 1], "warm": o["warm"][r["j"] - 1]}
             elif clause == "persist":
                 key = {"clause": clause, "route": o["rt"], "registry": o["rk"], "carrier": o["ca"], "form": o["f"], "what": r["what"], "outcome": r["outcome"]}
@@ -223,6 +223,8 @@ def run(ck):
         "total side: 28-token alphabet, two joiners; outcome Hang = the case consumed the per-case limit of 6 CPU-seconds in its child process without answering (the generated power towers need minutes); wall-clock cap 360 s",
         "foreign evaluation is observed through sympy's eval_expr: names resolved outside {Symbol, Integer, Float, Rational, sqrt}, attribute loads, lambdas, imports, assignments",
         "name sweep excludes names the independent reading cannot resolve (prefix-word + degree-sign alternatives: C14's finding) and the empty alias of dimensionless",
+        "savetxt -> loadtxt may refuse only text naming symbols the user added (no table travels); the workers run in UTF-8 mode: files written under another locale encoding are not covered",
+        "cross-registry history: every case runs in a process forked for it, so process-wide state cannot travel between cases; state set while unyt is imported is part of every (cold) reading",
         "a unit whose expression is the number 1 (prints as 'dimensionless') is not treated as coefficient free: only equality is demanded of its re-reading",
     ]
     tables = ck.pmap("impl_c20", "observe", [{"k": "tables"}], nproc=1)[0]
@@ -280,6 +282,10 @@ def run(ck):
                                        [("13 tokens len<=3", dict(MaxTok=3, TokPick=HFULL)), ("7 tokens len<=4", dict(MaxTok=4, TokPick=HSUB))])):
         gen.append(dict(module="MC_C20", cfg=_cfg(ck, f"MC_C20_hist{n}", Mode="hist", **kw), env={"NAMES": p_mc}, workers=1,
                         label="parsing history: " + lab + " x joiner x warm-up kind", required_actions=["Next"], timeout=3000))
+    # ... and not on what registries with OTHER contents parsed before (token sequences over the names and *; thorough: + 1 /)
+    HNAMES = ck.q([1, 2, 3, 4, 5, 6, 9], [1, 2, 3, 4, 5, 6, 7, 9, 10])
+    gen.append(dict(module="MC_C20", cfg=_cfg(ck, "MC_C20_xreg", Mode="xreg", MaxTok=2, TokPick=HNAMES, NJoin=ck.q(2, 3)), env={"NAMES": p_mc}, workers=1,
+                    label="parsing history across registries: tokens x joiner x (registry kind, other kind)", required_actions=["Next"], timeout=3000))
     NFIX = len(gen)
     for n, (lab, kw) in enumerate(toks):
         gen.append(dict(module="MC_C20", cfg=_cfg(ck, f"MC_C20_tok{n}", Mode="tok", **kw), env={"NAMES": p_mc}, workers=1, label="token sequences " + lab, required_actions=["Next"], timeout=3000))
@@ -368,13 +374,16 @@ def run(ck):
     # ---- parsing history
     hcases = []
     seenh = set()
-    for r in res[8].by_tag("HIST") + res[9].by_tag("HIST"):
-        k = (tuple(r["t"]), r["j"], r["w"])
+    for r in res[8].by_tag("HIST") + res[9].by_tag("HIST") + res[10].by_tag("HIST"):
+        k = (tuple(r["t"]), r["j"], r["w"], r["r"], r["q"])
         if k not in seenh:
             seenh.add(k)
-            hcases.append({"k": "hist", "t": r["t"], "j": r["j"], "w": r["w"], "x": r["x"]})
+            hcases.append({"k": "hist", "t": r["t"], "j": r["j"], "w": r["w"], "r": r["r"], "q": r["q"], "x": r["x"]})
     hobs = _replay(ck, hcases, rows_mc)
     ck.cov["history_cases"] = len(hcases)
+    ck.cov["history_cross_registry_cases"] = sum(1 for c in hcases if c["w"] == "foreign")
+    if not any(o["cold"][0]["o"] == "Ok" and o["r"] == k for o in hobs if "_error" not in o and o["w"] == "foreign" for k in ("bare",)):
+        raise MachineryFailure("the cross-registry history instance accepted nothing under the bare registry")
     ck.cov["history_cold_outcomes"] = {}
     for o in hobs:
         if "_error" not in o:
